@@ -888,6 +888,17 @@ def to_element_inherited(H):
             continue
         got = {k: v for k, v in el.attrib.items() if k != "d"}
         H.prove(got == must_write, "to_element.own_value_written_exactly_when_it_differs_from_the_inherited_one", detail=f"inherited {inherited}: wrote {got}, expected {must_write}")
+    # "equals" is about the VALUE: an ancestor may spell the same number differently (.5, 0.50, 1e0).  Writing the number out on the
+    # element would turn an inherited value into an own one, which then wins over what a <use> says (use_overrides_inherited_... in the corpus)
+    q = SVGPath(d="M0,0 L1,0 L1,1 Z", fill_opacity=0.5, stroke_width=2.5)
+    for shape, inherited, must_write in ((q, {"fill-opacity": ".5", "stroke-width": "2.50"}, {}), (q, {"fill-opacity": "5e-1", "stroke-width": "2.5"}, {}), (p, {"opacity": "1.0", "stroke-miterlimit": "4.0"}, {}),
+                                         (q, {"fill-opacity": ".25", "stroke-width": "none"}, {"fill-opacity": "0.5", "stroke-width": "2.5"})):
+        el, e = H.catch(to_element, shape, **inherited)
+        H.prove(e is None, "to_element.no_exception", detail=repr(e))
+        if e is not None:
+            continue
+        got = {k: v for k, v in el.attrib.items() if k != "d"}
+        H.prove(got == must_write, "to_element.a_number_spelled_differently_by_the_ancestor_is_still_the_same_value", detail=f"inherited {inherited}: wrote {got}, expected {must_write}")
 
 
 
